@@ -1,14 +1,3 @@
 package main
 
-import (
-	"fmt"
-	"os"
-)
-
 type ioLog struct{}
-
-func (s *session) execDT(op string, a []string) string { return "bad:dt-not-built" }
-
-func schedMain(a []string) { fmt.Fprintln(os.Stderr, "not built"); os.Exit(2) }
-func raceMain(a []string)  { fmt.Fprintln(os.Stderr, "not built"); os.Exit(2) }
-func lockMain(a []string)  { fmt.Fprintln(os.Stderr, "not built"); os.Exit(2) }
